@@ -1,5 +1,6 @@
 import DivanModel.Driver.Util
 import DivanModel.Driver.C11
+import DivanModel.Driver.C10
 /-! Line-protocol driver. One request per line: `verb args…<TAB>implementation observation`.
     One answer per line: `model observation<TAB>spec verdict on the implementation's observation<TAB>branch tag`. -/
 open Driver
@@ -7,6 +8,7 @@ open Driver
 def dispatch (verb : String) (args : List String) (obs : String) : Option Reply :=
   match verb with
   | "tsc" | "tsc3" | "tscshift" | "dur" | "prec" | "precs" => C11.handle verb args obs
+  | "tally" | "tallymt" | "prof" => C10.handle verb args obs
   | _ => none
 
 def answer (line : String) : String :=
